@@ -13,5 +13,6 @@ Lemma link_indexing :
   /\ Gen.Cluster.assignments_are_predict_of_resampled_points = true
   /\ Gen.Cluster.kernels_index_statistics_by_assignment = true
   /\ Gen.Cluster.nonfinite_dof_replaced_by_fallback = true
-  /\ Gen.Cluster.trainer_and_resampler_share_one_clusterer = true.
+  /\ Gen.Cluster.trainer_and_resampler_share_one_clusterer = true
+  /\ Gen.Cluster.reuse_tests_coverage_and_refits = true.
 Proof. repeat split. Qed.
